@@ -1,6 +1,7 @@
 package cache
 
 import (
+	"errors"
 	"sync"
 	"sync/atomic"
 	"time"
@@ -270,26 +271,18 @@ func (c *cuckooSentCache) CheckSpan(span *types.Span) (TraceSentRecord, string, 
 
 func (c *cuckooSentCache) Resize(cfg config.SampleCacheConfig) error {
 	keptSize := int(cfg.GetKeptSizePerWorker())
-	stc, err := lru.New[string, *keptTraceCacheEntry](keptSize)
-	if err != nil {
-		return err
+	if keptSize <= 0 {
+		return errors.New("must provide a positive size")
 	}
 
-	// grab all the items in the current cache; if it's larger than
-	// what will fit in the new one, discard the oldest ones
-	// (we don't have to do anything with the ones we discard, this is
-	// the trace decisions cache).
-	keys := c.kept.Keys()
-	if len(keys) > keptSize {
-		keys = keys[len(keys)-keptSize:]
-	}
-	// copy all the keys to the new cache in order
-	for _, k := range keys {
-		if v, found := c.kept.Get(k); found {
-			stc.Add(k, v)
-		}
-	}
-	c.kept = stc
+	// Resize the kept-trace LRU in place instead of swapping in a copy: the
+	// LRU takes its own lock, so CheckSpan/Record/CheckTrace running on other
+	// goroutines (e.g. ProcessSpanImmediately on a router goroutine while the
+	// worker handles a config reload) never race with the resize, and no
+	// record added during the resize is lost. If the new size is smaller,
+	// the oldest entries are discarded (this is the trace decisions cache, so
+	// we don't have to do anything with the ones we discard).
+	c.kept.Resize(keptSize)
 
 	// also set up the drop cache size to change eventually
 	c.dropped.SetNextCapacity(cfg.GetDroppedSizePerWorker())
